@@ -62,6 +62,17 @@ MUTANTS = {
  'C10-ignoreH-crosstalk': ('C10', MG, 'ignor = ignore_hydrogens[name]', 'ignor = all(ignore_hydrogens.values())'),
  'C10-deform-too-long-accepted': ('C10', MG, 'if not 1 <= len(deformation) <= 3:', 'if not 1 <= len(deformation) <= 4:'),
  'C10-validate-wrong-molecule': ('C10', MG, 'ind2 = mol_end[tup[1]]', 'ind2 = mol_start[tup[1]]'),
+ 'C11-no-sort': ('C11', SY, 'self._molecules_ordered.sort(key=lambda x: x[1])', 'self._molecules_ordered.sort(key=lambda x: x[0])'),
+ 'C11-block-not-reset': ('C11', SY, '                new_block = True\n                start_index += 1', '                start_index += 1'),
+ # equivalent inside the property's domain (disjoint residue signatures): not expected to be caught
+ 'C11-prefix-match-EQUIVALENT': ('C11', SY, 'if (av_gro[start_index:start_index+l_index_mol] == index_mol_gro).all():', 'if av_gro[start_index] == index_mol_gro[0]:'),
+ 'C11-minus-one-special-case': ('C11', SY, '                if index == -1:', '                if False:'),
+ 'C11-template-coordinates': ('C11', SY, '''            residues = self.system_gro[gro_start:gro_end]  # type: ignore
+            mol = self.different_molecules[index].copy(residues)''', '''            residues = self.system_gro[gro_start:gro_end]  # type: ignore
+            mol = self.different_molecules[index].copy()'''),
+ 'C11-skip-after-match': ('C11', SY, '                start_index += l_index_mol\n', '                start_index += l_index_mol + 1\n'),
+ 'C11-first-occurrence-only-unconsumed': ('C11', SY, '                av_gro[start_index:start_index+l_index_mol] = -1\n', ''),
+ 'C11-len-counts-blocks': ('C11', SY, 'return sum(elem[2] for elem in self._molecules_ordered)', 'return len(self._molecules_ordered)'),
 }
 
 
